@@ -1,7 +1,7 @@
 (* Judge for the posit family: maps a case (cfg, op, args) to the model's answer
    and decides whether the implementation's answer is acceptable. *)
 From Coq Require Import ZArith QArith Qabs Lia Bool List.
-From UV Require Import RoundSpec RoundNE PositMono2 PositSpec Num PositModel PositFast Ops Verdict.
+From UV Require Import RoundSpec RoundNE PositMono2 PositSpec Num PositModel PositFast Ops Verdict NativeJudge.
 Import ListNotations.
 Local Open Scope Z_scope.
 
@@ -56,16 +56,8 @@ Definition judge_posit (cfg : list Z) (op : Z) (args res : list Z) : verdict :=
   if Z.eqb op OP_from_f80 then exact [p_of_num_f n es (f80_decode a)] true else
   if Z.eqb op OP_from_int then exact [p_of_int_f n es (int_decode true a b)] true else   (* args: width, bits *)
   if Z.eqb op OP_from_uint then exact [p_of_int_f n es (int_decode false a b)] true else
-  if Z.eqb op OP_to_f64 then
-    match p_to_num n es a with
-    | NaN => mkV (match f64_decode (nth0 res 0) with NaN => true | _ => false end) [f64_encode NaN] true
-    | x => exact [f64_encode x] true
-    end else
-  if Z.eqb op OP_to_f32 then
-    match p_to_num n es a with
-    | NaN => mkV (match f32_decode (nth0 res 0) with NaN => true | _ => false end) [f32_encode NaN] true
-    | x => exact [f32_encode x] true
-    end else
+  if Z.eqb op OP_to_f64 then judge_to_f64 (p_to_num n es a) res else
+  if Z.eqb op OP_to_f32 then judge_to_f32 (p_to_num n es a) res else
   if Z.eqb op OP_to_f64_rt then exact [a] true else
   if Z.eqb op OP_to_int then    (* args: width w, bits; res: w-bit two's complement; judged only when it fits *)
     match p_to_int n es b with
